@@ -13,7 +13,7 @@ func C15_response_bytes() {
 	vRandConcrete(true)
 	hole := vArb("h", 3+2*vTier())
 	srv := &vServer{}
-	where := vChoose("where", 5)
+	where := vChoose("where", 7)
 	which := 0
 	if where == 2 {
 		which = vChoose("hdr", 4)
@@ -21,6 +21,12 @@ func C15_response_bytes() {
 	cut := 0
 	if where == 4 {
 		cut = vChoose("cut", 40)
+	}
+	// 5, 6: an accept value of exactly the expected length (28) -- all 'A's or the genuine one --
+	// with the arbitrary bytes at its start, in the middle or at its end (where the padding is)
+	accPos := 0
+	if where >= 5 {
+		accPos = []int{0, 13, 28 - len(hole)}[vChoose("accpos", 3)]
 	}
 
 	srv.resp = func(key []byte) []byte {
@@ -35,6 +41,14 @@ func C15_response_bytes() {
 			return append(append([]byte(ok+h), hole...), "\r\n\r\n"...)
 		case 3:
 			return append(append([]byte("HTTP/"), hole...), " 101 x\r\n\r\n"...)
+		case 5, 6:
+			v := []byte("AAAAAAAAAAAAAAAAAAAAAAAAAAAA")
+			if where == 6 {
+				v = append([]byte{}, vAccept(key)...)
+			}
+			copy(v[accPos:], hole)
+			b := []byte("HTTP/1.1 101 Switching Protocols\r\nUpgrade: websocket\r\nConnection: Upgrade\r\nSec-WebSocket-Accept: ")
+			return append(append(b, v...), "\r\n\r\n"...)
 		}
 		b := []byte(ok + "\r\n")
 		if cut < len(b) {
